@@ -12,9 +12,12 @@ handle state machine `BlocV.CApi.step` (driver command `seq`). Both print one to
   * errno   — bloc_errno() and whether bloc_strerror() is non-empty, after EVERY call.
 
   impl token == model token   for every call of every sequence              else: VIOLATION
-  model `hazard:*` token      the library must crash there, and the hazard must be a recorded finding
+  model `hazard:*` token      the library must crash there, and the hazard must be a recorded (status known) finding
   leak=1 after the caller freed everything: every LeakSanitizer record must carry the call-site signature of a
-           recorded finding that the case is entitled to (it used the text / program of that finding), else VIOLATION.
+           recorded finding of status `known` that the case is entitled to (it used the text / program of that
+           finding), else VIOLATION. Repaired findings (status `fixed`: the two null accessors, the createEnv leak)
+           entitle nothing: a leak below FunctorManager::createEnv, or a crash in bloc_literal / bloc_tabchar, is a
+           violation like any other.
 Memory reclamation is NOT modelled in Lean: leaks are LeakSanitizer's verdict only.
 """
 import itertools
@@ -47,14 +50,14 @@ KF_L_RET = "C15.leak_return_eof"
 KF_L_MEMB = "C15.leak_member_call_eof"
 
 DEFAULT_FINDINGS = [
-    {"property": "C15", "id": KF_LIT, "status": "known", "site": "blocc/bloc_capi.cpp:bloc_literal",
+    {"property": "C15", "id": KF_LIT, "status": "fixed", "commit": "c47e94d", "site": "blocc/bloc_capi.cpp:bloc_literal",
      "witness": "seq cnew,0 vnull,0,4 accu,0,l",
-     "what": "bloc_literal() on a null string value dereferences a null pointer (str->data() on the nullptr returned by "
+     "what": "(repaired) bloc_literal() on a null string value dereferenced a null pointer (str->data() on the nullptr returned by "
              "Value::literal()) instead of returning bloc_true with *buf = NULL as documented"},
-    {"property": "C15", "id": KF_RAW, "status": "known", "site": "blocc/bloc_capi.cpp:bloc_tabchar",
+    {"property": "C15", "id": KF_RAW, "status": "fixed", "commit": "c47e94d", "site": "blocc/bloc_capi.cpp:bloc_tabchar",
      "witness": "seq cnew,0 vnull,0,6 accu,0,x",
-     "what": "bloc_tabchar() on a null bytes value dereferences a null pointer (tc->data(), tc->size()) instead of "
-             "returning bloc_true with *buf = NULL as documented"},
+     "what": "(repaired) bloc_tabchar() on a null bytes value dereferenced a null pointer (tc->data(), tc->size()) instead of "
+             "returning bloc_true with *buf = NULL, *len = 0 as documented"},
     {"property": "C15", "id": KF_EOF, "status": "known", "site": "blocc/bloc_capi.cpp:bloc_parse_executable, bloc_parse_expression",
      "witness": "seq cnew,0 xparse,0,0,<q9 = 1>,!2,1   and   eparse,0,0,<1+1>,!5",
      "what": "a text that ends inside a statement or expression (also: an expression without a terminating newline or ';') "
@@ -74,10 +77,11 @@ DEFAULT_FINDINGS = [
              "declaring context; the function object is shared (shared_ptr) with the executable that declared it and with every clone, "
              "so bloc_free_executable() after bloc_ctx_purge()/bloc_free_context() of the context, or bloc_free_context() of a clone "
              "after its original, destroys the function last and reads the deleted manager"},
-    {"property": "C15", "id": KF_L_ENV, "status": "known", "site": "blocc/functor_manager.cpp:FunctorManager::createEnv",
+    {"property": "C15", "id": KF_L_ENV, "status": "fixed", "commit": "50ff576", "site": "blocc/functor_manager.cpp:FunctorManager::createEnv",
      "witness": "function f1(a:integer) return integer is begin return a+1; end; i1 = f1(1/(2-2));",
-     "what": "a runtime error while evaluating an argument of a user function call leaks the callee context "
-             "(createEnv: the context taken from the cache / created is neither released nor put back when store() throws)"},
+     "what": "(repaired) a runtime error while evaluating an argument of a user function call leaked the callee context "
+             "(createEnv: the context taken from the cache / created was neither released nor put back when store() threw; "
+             "it is now handed back to the function's context cache)"},
     {"property": "C15", "id": KF_L_SUB, "status": "known", "site": "blocc/parse_expression.cpp:ParseExpression::sum (also the other binary operators using assertType(result, ..., false))",
      "witness": "q9 = \"abc\" - 1;",
      "what": "a type error on the LEFT operand of a binary operator leaks the already parsed right operand "
@@ -100,6 +104,7 @@ def _has(frames, *seq):
 
 
 LEAK_SIGNATURES = [
+    # repaired (status fixed): kept so that a leak at this site is named in the violation it now raises
     (KF_L_ENV, lambda fr: "bloc::FunctorManager::createEnv" in fr),
     (KF_L_IF, lambda fr: _has(fr, "bloc::ParseExpression::expression", "bloc::IFStatement::parse")),
     (KF_L_RET, lambda fr: fr[:1] == ["bloc::RETURNStatement::parse"]),
@@ -252,7 +257,9 @@ def EBAD(c, e, k, src):
     return "eparse,%d,%d,%s,!%d" % (c, e, hx(src), k)
 
 
-LEAK_PROG = [("func", "F9", ["I7"], "i", [("return", ("bin", "ADD", ("var", "I7"), I(1)))], []),
+# a call whose argument raises (1/(2-2)) after the callee context was taken from the cache / created: the context must
+# go back to the function's cache (FunctorManager::createEnv), nothing may remain allocated at the end
+ARGERR_PROG = [("func", "F9", ["I7"], "i", [("return", ("bin", "ADD", ("var", "I7"), I(1)))], []),
              ("let", "I1", ("fcall", "F9", [("bin", "DIV", I(1), ("bin", "SUB", I(2), I(2)))]))]
 
 
@@ -754,11 +761,11 @@ class SeqGen:
             return True
         k = r.random()
         self._hasfunc = False
-        if k < 0.02 * (self.leaky * 100):
+        if k < 0.03:
+            # a failing argument of a user function call: an ordinary program (no leak allowance)
             self._hasfunc = True
-            prog = LEAK_PROG
+            prog = ARGERR_PROG
             cx["typed"].add("I1")
-            self.flags.add(KF_L_ENV)
         elif k < 0.30:
             prog = self.full_program(c)
         elif k < 0.50 and cx["typed"]:
@@ -928,8 +935,8 @@ class C15(Check):
             ("vbool,0,1", "bool"), ("vint,0,-5", "int"), ("vnum,0,3ff8000000000000", "num"), ("vlit,0,%s" % hx("ab"), "lit"),
             ("vlit,0,-", "litnull"), ("vraw,0,4100", "raw"), ("vraw,0,-", "rawnull"), ("vraw,0,", "rawempty"), ("vlit,0,", "litempty"),
             ("vimag,0,3ff0000000000000,c000000000000000", "imag")]
-        # every accessor on every caller-created value (null and not); the two accessors known to crash on a null
-        # value are guarded here (`acc`) and exercised unguarded (`accu`) in the witness cases below
+        # every accessor on every caller-created value (null and not), bloc_literal / bloc_tabchar on null values
+        # included: the documented answer is bloc_true with *buf = NULL (and *len = 0)
         for cr, nm in creators:
             C.append(self.mk("acc_" + nm, ["cnew,0", cr] + ["acc,0,%s" % k for k in ACCS] + ["vdump,0", "tabitem,0,0,1", "tupitem,0,0,1", "anull,0"]
                              + ["acc,0,%s" % k for k in ACCS] + ["alit,0,%s" % hx("x"), "araw,0,00", "vfree,0"]))
@@ -960,12 +967,16 @@ class C15(Check):
             use = [("return", ("fcall", "F9", [I(40)]))]
             for i, pre in enumerate(([], [X(0, 0, f1), "xfree,0"], [X(0, 0, f1), "xfree,0", X(0, 0, f2), "xfree,0"])):
                 C.append(self.mk("fdecl_%d" % i, ["cnew,0"] + pre + [XBAD(0, 1, gdecl[0], badp[gdecl[0]], 1), XBAD(0, 1, gcall[0], badp[gcall[0]], 1)]
-                                 + ([X(0, 2, use), "exec,2", "drop,0,0", "vdump,0"] if pre else []) + ["out,0"], {"leaks": {KF_L_ENV}}))
+                                 + ([X(0, 2, use), "exec,2", "drop,0,0", "vdump,0"] if pre else []) + ["out,0"]))
+        # the former witnesses of the repaired accessor findings (C15.literal_accessor_null_deref,
+        # C15.tabchar_accessor_null_deref): ordinary cases, the model answers `1:null`; then the value is still usable
+        C.append(self.mk("nullacc_lit", ["cnew,0", "vnull,0,4", "acc,0,l", "accu,0,l", "vdump,0", "alit,0,%s" % hx("x"), "acc,0,l", "anull,0", "acc,0,l", "vfree,0"]))
+        C.append(self.mk("nullacc_lit2", ["cnew,0", "vlit,0,-", "accu,0,l", "acc,0,x", "vdump,0", "vfree,0"]))
+        C.append(self.mk("nullacc_raw", ["cnew,0", "vnull,0,6", "acc,0,x", "accu,0,x", "vdump,0", "araw,0,0041", "acc,0,x", "anull,0", "acc,0,x", "vfree,0"]))
+        C.append(self.mk("nullacc_raw2", ["cnew,0", "vraw,0,-", "accu,0,x", "acc,0,l", "vdump,0", "vfree,0"]))
+        C.append(self.mk("nullacc_lit3", ["cnew,0", "reg,0,0,%s,4,0" % hx("S1"), "load,0,0,1", "accu,1,l", "vdump,1"]))
+        C.append(self.mk("nullacc_raw3", ["cnew,0", "reg,0,0,%s,6,0" % hx("A1"), "load,0,0,1", "accu,1,x", "vdump,1"]))
         # witnesses of the recorded findings
-        C.append(self.mk("kf_lit", ["cnew,0", "vnull,0,4", "acc,0,l", "accu,0,l"], {"kf": KF_LIT}))
-        C.append(self.mk("kf_lit2", ["cnew,0", "vlit,0,-", "accu,0,l"], {"kf": KF_LIT}))
-        C.append(self.mk("kf_raw", ["cnew,0", "vnull,0,6", "acc,0,x", "accu,0,x"], {"kf": KF_RAW}))
-        C.append(self.mk("kf_lit3", ["cnew,0", "reg,0,0,%s,4,0" % hx("S1"), "load,0,0,1", "accu,1,l"], {"kf": KF_LIT}))
         eofs = [k for k, s in enumerate(badp) if s in ("q9 = 1", "q9 = \"unterminated;")]
         C.append(self.mk("kf_eof", ["cnew,0"] + [XBAD(0, 0, k, badp[k], 1) for k in eofs] + [EBAD(0, 0, k, bade[k]) for k, s in enumerate(bade) if s == "1+1"],
                          {"spec": KF_EOF}))
@@ -974,11 +985,16 @@ class C15(Check):
         tprog = [("let", "A1", L("Ts1[S:616263,S:616263,S:616263]"))]
         C.append(self.mk("kf_item", ["cnew,0", X(0, 0, tprog), "exec,0", "find,0,0,%s" % hx("A1"), "load,0,0,1", "tabitem,1,1,2", "vint,3,5", "storeu,0,0,3", "vdump,2"],
                          {"kf": KF_ITEM}))
-        fdef = [LEAK_PROG[0]]
+        fdef = [ARGERR_PROG[0]]
         C.append(self.mk("kf_uaf_purge", ["cnew,0", X(0, 0, fdef), "cpurge,0", "xfree,0", "cfree,0"], {"expect_crash": KF_UAF}))
         C.append(self.mk("kf_uaf_free", ["cnew,0", X(0, 0, fdef), "cfree,0", "xfree,0"], {"expect_crash": KF_UAF}))
         C.append(self.mk("kf_uaf_clone", ["cnew,0", X(0, 0, fdef), "xfree,0", "cclone,0,1,2", "cfree,0", "cfree,1"], {"expect_crash": KF_UAF}))
-        C.append(self.mk("kf_leak_env", ["cnew,0", X(0, 0, LEAK_PROG), "exec,0", "exec,0", "out,0"], {"leaks": {KF_L_ENV}}))
+        # the former witness of the repaired leak C15.leak_createenv_argument_error: an ordinary no-leak case — the
+        # call fails twice (the second call reuses the context handed back by the first), then the function is used
+        # successfully through the same cached context, then everything is released: leak=0 required
+        okuse = [("return", ("fcall", "F9", [I(40)]))]
+        C.append(self.mk("argerr_noleak", ["cnew,0", X(0, 0, ARGERR_PROG), "exec,0", "exec,0", "out,0", X(0, 1, okuse), "exec,1", "drop,0,0", "vdump,0",
+                                           "rst,0", "exec,0", "xfree,1", "xfree,0", "cfree,0"]))
         C.append(self.mk("kf_leak_sub", ["cnew,0", XBAD(0, 0, len(badp) - 2, badp[-2], 1), EBAD(0, 0, len(bade) - 1, bade[-1])], {"leaks": {KF_L_SUB}}))
         C.append(self.mk("kf_leak_if", ["cnew,0", XBAD(0, 0, len(badp) - 1, badp[-1], 1)], {"leaks": {KF_L_IF}}))
         # every bad text of the catalog: code, position, symbols left behind, the context stays usable
@@ -1015,7 +1031,7 @@ class C15(Check):
         for i in range(nseq):
             g = SeqGen(self.rng, badp, bade, maxlen if i % 4 else max(8, maxlen // 3), leaky=0.01)
             ops = g.run()
-            cases.append(self.mk("s%d" % i, ops, {"leaks": set(g.flags) | {KF_L_ENV}, "random": True}))
+            cases.append(self.mk("s%d" % i, ops, {"leaks": set(g.flags), "random": True}))
         self.stats["sequences"] = nseq
         self.stats["max_len"] = maxlen
         return cases
@@ -1079,12 +1095,10 @@ class C15(Check):
                     break
                 if mres.startswith("hazard:"):
                     # the library must crash exactly here, and the hazard must be a recorded finding
-                    kf = c.meta.get("kf") or {"l": KF_LIT, "x": KF_RAW}.get(op.split(",")[-1] if kind == "accu" else "", None)
+                    kf = c.meta.get("kf")
                     crashed = it is None and ir["status"].startswith("crash ") and len(itoks) == k
                     if kf in self.kf and crashed:
                         self.known_hits.setdefault(kf, {"what": self.kf[kf]["what"], "example": " ".join(ops[:k + 1])[:160], "impl": ir["status"]})
-                    elif kf in self.kf and it is not None and not it.startswith("~") and it.split("/")[0] == "1:null":
-                        pass    # repaired upstream: the documented result
                     else:
                         self.record(c, "model reaches a C-level hazard (%s): the library %s and the hazard is %s" % (
                             mres, "crashed" if crashed else "answered %s" % it, "recorded as %s" % kf if kf in self.kf else "not a recorded finding"), it, mt, op, k, ir)
@@ -1134,8 +1148,11 @@ class C15(Check):
                     ls = self.stats.setdefault("leak_sites", {})
                     ls[fid] = ls.get(fid, 0) + 1
                 else:
-                    self.record(c, "memory remains allocated after the caller freed everything, at a site that is not a recorded finding "
-                                   "(or not one this sequence is entitled to): " + " <- ".join(frames[:5]), "leak=1", "leak=0", "(end of case)", len(ops), ir)
+                    fixed = next((f for f in self.findings if f["id"] == fid and f.get("status") == "fixed"), None)
+                    self.record(c, "memory remains allocated after the caller freed everything, at " + (
+                                   "the site of the REPAIRED finding %s (fixed in %s): the defect is back: " % (fid, fixed.get("commit", "?")) if fixed else
+                                   "a site that is not a recorded finding (or not one this sequence is entitled to): ")
+                                   + " <- ".join(frames[:5]), "leak=1", "leak=0", "(end of case)", len(ops), ir)
                     break
         elif ir["leak"] not in ("leak=0",):
             self.record(c, "no LeakSanitizer verdict (%s): the probe must be built with -fsanitize=address" % ir["leak"], ir["leak"], "leak=0", "(end)", len(ops), ir)
